@@ -25,6 +25,7 @@ def run(ctx):
     D.rule_segtype_subject(res, "C17-R1", m)
     n = D.rule_loop_typestate(res, "C17-R1", m)
     D.rule_accept_guard(res, "C17-R1A", m)
+    D.rule_segment_ends_walk(res, "C17-R1", m)
     D.rule_default_entry_rejected(res, "C17-R1L", m)
     D.rule_buffer_growth(res, "C17-R2", m)
     D.rule_table_only_state(res, "C17-R3", m)
